@@ -3,6 +3,7 @@ package sim
 import (
 	"fmt"
 	"reflect"
+	"runtime"
 	"runtime/debug"
 	"sort"
 	"strings"
@@ -14,20 +15,21 @@ import (
 
 // Node is one simulated party: a real handler plus its private randomness stream.
 type Node struct {
-	ID      party.ID
-	H       protocol.Handler
-	Rng     *DRBG
-	Honest  bool
-	Closed  bool // Listen() channel observed closed
-	Dead    bool // crashed / hung / removed: no further deliveries
-	Panic   string
-	PanicFn string
-	Hang    bool
-	Sent    []*protocol.Message // everything the node emitted, in canonical order
-	Recv    []*Env              // everything delivered to it (in delivery order)
-	Tag     string              // free label (e.g. session name)
-	out     <-chan *protocol.Message
-	initial []*protocol.Message
+	ID        party.ID
+	H         protocol.Handler
+	Rng       *DRBG
+	Honest    bool
+	Closed    bool // Listen() channel observed closed
+	Dead      bool // crashed / hung / removed: no further deliveries
+	Panic     string
+	PanicFn   string
+	Hang      bool
+	HangStack string
+	Sent      []*protocol.Message // everything the node emitted, in canonical order
+	Recv      []*Env              // everything delivered to it (in delivery order)
+	Tag       string              // free label (e.g. session name)
+	out       <-chan *protocol.Message
+	initial   []*protocol.Message
 }
 
 // Env is one (message, addressee) pair in flight.
@@ -179,6 +181,17 @@ func (n *Net) Call(node *Node, f func()) (msgs []*protocol.Message) {
 		case <-timer.C:
 			node.Hang = true
 			node.Dead = true
+			buf := make([]byte, 1<<20)
+			nb := runtime.Stack(buf, true)
+			for _, g := range strings.Split(string(buf[:nb]), "\n\n") {
+				if strings.Contains(g, "taurusgroup/multi-party-sig/pkg/protocol.") && !strings.Contains(g, "sim.(*Net).Call(") {
+					if len(g) > 3000 {
+						g = g[:3000]
+					}
+					node.HangStack = g
+					break
+				}
+			}
 			n.R.Use(old)
 			return msgs
 		}
